@@ -88,6 +88,19 @@ def candidates(case):
             yield c
 
 
+def well_formed(s):
+    """push/pop balanced (never below level 0); queries directly follow what they followed before is not required"""
+    d = 0
+    for c in s.get("cmds", []):
+        if c[0] == "push":
+            d += c[1]
+        elif c[0] == "pop":
+            d -= c[1]
+            if d < 0:
+                return False
+    return True
+
+
 def shrink(case, still_fails, max_rounds=400, gen=candidates, max_s=120.0):
     import time
     t_end = time.time() + max_s
@@ -102,6 +115,10 @@ def shrink(case, still_fails, max_rounds=400, gen=candidates, max_s=120.0):
                 rounds = max_rounds + 1
                 break
             try:
+                if isinstance(cand, dict) and "cmds" in cand and not well_formed(cand):
+                    continue
+                if isinstance(cand, dict) and "script" in cand and not well_formed(cand["script"]):
+                    continue
                 if still_fails(cand):
                     cur = cand
                     progress = True
